@@ -1,55 +1,86 @@
 (* C11 - proofs about Foreign/EndpointSpec.v: an operation's effective parameters are its own plus the path-level
-   ones it does not override (override = same NAME), each exactly once; nothing else. *)
-From Coq Require Import String Ascii List NArith Bool.
+   ones it does not override (override = same NAME), each exactly once, and one body parameter per request media
+   type; nothing else. *)
+From Coq Require Import String Ascii List NArith Bool Permutation.
 Import ListNotations.
 Require Import Verif.Foreign.NameEscape Verif.Foreign.NameEscapeProps Verif.Foreign.ImportSpec Verif.Foreign.ImportProps
   Verif.Foreign.EndpointSpec.
 Local Open Scope list_scope.
 
-Lemma padd_In p l : In p (padd p l).
-Proof.
-  induction l as [|q r IH]; cbn [padd]; [left; reflexivity|].
-  destruct (bs_eqb (q_name q) (q_name p)); [left; reflexivity|right; exact IH].
-Qed.
+Section PaddProps.
+  Context {A:Type} (key:A -> bs).
+  Notation padd := (padd key).
+  Notation padd_all := (padd_all key).
 
-Lemma padd_keep p x l : In x l -> q_name x <> q_name p -> In x (padd p l).
-Proof.
-  induction l as [|q r IH]; intros Hin Hne; [destruct Hin|]. cbn [padd].
-  destruct (bs_eqb (q_name q) (q_name p)) eqn:E.
-  - destruct Hin as [->|Hin]; [apply bs_eqb_eq in E; contradiction|right; exact Hin].
-  - destruct Hin as [->|Hin]; [left; reflexivity|right; apply IH; assumption].
-Qed.
+  Lemma padd_In p l : In p (padd p l).
+  Proof.
+    induction l as [|q r IH]; cbn [EndpointSpec.padd]; [left; reflexivity|].
+    destruct (bs_eqb (key q) (key p)); [left; reflexivity|right; exact IH].
+  Qed.
 
-Lemma padd_sound p x l : In x (padd p l) -> x = p \/ In x l.
-Proof.
-  induction l as [|q r IH]; cbn [padd]; [intros [<-|[]]; left; reflexivity|].
-  destruct (bs_eqb (q_name q) (q_name p)).
-  - intros [<-|H]; [left; reflexivity|right; right; exact H].
-  - intros [<-|H]; [right; left; reflexivity|]. destruct (IH H) as [->|H']; [left; reflexivity|right; right; exact H'].
-Qed.
+  Lemma padd_keep p x l : In x l -> key x <> key p -> In x (padd p l).
+  Proof.
+    induction l as [|q r IH]; intros Hin Hne; [destruct Hin|]. cbn [EndpointSpec.padd].
+    destruct (bs_eqb (key q) (key p)) eqn:E.
+    - destruct Hin as [->|Hin]; [apply bs_eqb_eq in E; contradiction|right; exact Hin].
+    - destruct Hin as [->|Hin]; [left; reflexivity|right; apply IH; assumption].
+  Qed.
 
-Lemma padd_all_keep ps : forall acc x,
-  In x acc -> ~ In (q_name x) (map q_name ps) -> In x (padd_all ps acc).
-Proof.
-  induction ps as [|p ps IH]; intros acc x Hin Hn; [exact Hin|]. unfold padd_all. cbn [fold_left].
-  apply IH; [|intros H; apply Hn; right; exact H].
-  apply padd_keep; [exact Hin|]. intros E. apply Hn. left. symmetry. exact E.
-Qed.
+  Lemma padd_sound p x l : In x (padd p l) -> x = p \/ In x l.
+  Proof.
+    induction l as [|q r IH]; cbn [EndpointSpec.padd]; [intros [<-|[]]; left; reflexivity|].
+    destruct (bs_eqb (key q) (key p)).
+    - intros [<-|H]; [left; reflexivity|right; right; exact H].
+    - intros [<-|H]; [right; left; reflexivity|]. destruct (IH H) as [->|H']; [left; reflexivity|right; right; exact H'].
+  Qed.
 
-Lemma padd_all_own ps : forall acc p, NoDup (map q_name ps) -> In p ps -> In p (padd_all ps acc).
-Proof.
-  induction ps as [|q ps IH]; intros acc p Hn Hin; [destruct Hin|]. unfold padd_all. cbn [fold_left].
-  cbn [map] in Hn. apply NoDup_cons_iff in Hn. destruct Hn as [Hq Hn].
-  destruct Hin as [->|Hin]; [|apply IH; assumption].
-  apply (padd_all_keep ps); [apply padd_In|exact Hq].
-Qed.
+  Lemma padd_all_keep ps : forall acc x,
+    In x acc -> ~ In (key x) (map key ps) -> In x (padd_all ps acc).
+  Proof.
+    induction ps as [|p ps IH]; intros acc x Hin Hn; [exact Hin|]. unfold EndpointSpec.padd_all. cbn [fold_left].
+    apply IH; [|intros H; apply Hn; right; exact H].
+    apply padd_keep; [exact Hin|]. intros E. apply Hn. left. symmetry. exact E.
+  Qed.
 
-Lemma padd_all_sound ps : forall acc x, In x (padd_all ps acc) -> In x ps \/ In x acc.
-Proof.
-  induction ps as [|p ps IH]; intros acc x H; [right; exact H|]. unfold padd_all in H. cbn [fold_left] in H.
-  destruct (IH _ _ H) as [H'|H']; [left; right; exact H'|].
-  destruct (padd_sound _ _ _ H') as [->|H'']; [left; left; reflexivity|right; exact H''].
-Qed.
+  Lemma padd_all_own ps : forall acc p, NoDup (map key ps) -> In p ps -> In p (padd_all ps acc).
+  Proof.
+    induction ps as [|q ps IH]; intros acc p Hn Hin; [destruct Hin|]. unfold EndpointSpec.padd_all. cbn [fold_left].
+    cbn [map] in Hn. apply NoDup_cons_iff in Hn. destruct Hn as [Hq Hn].
+    destruct Hin as [->|Hin]; [|apply IH; assumption].
+    apply (padd_all_keep ps); [apply padd_In|exact Hq].
+  Qed.
+
+  Lemma padd_all_sound ps : forall acc x, In x (padd_all ps acc) -> In x ps \/ In x acc.
+  Proof.
+    induction ps as [|p ps IH]; intros acc x H; [right; exact H|]. unfold EndpointSpec.padd_all in H. cbn [fold_left] in H.
+    destruct (IH _ _ H) as [H'|H']; [left; right; exact H'|].
+    destruct (padd_sound _ _ _ H') as [->|H'']; [left; left; reflexivity|right; exact H''].
+  Qed.
+End PaddProps.
+
+Section PaddAppend.
+  Context {A:Type} (key:A -> bs).
+  (* an entry whose name is new is appended *)
+  Lemma padd_fresh p l : ~ In (key p) (map key l) -> padd key p l = l ++ [p].
+  Proof.
+    induction l as [|q r IH]; intros Hn; [reflexivity|]. cbn [EndpointSpec.padd].
+    destruct (bs_eqb (key q) (key p)) eqn:E.
+    - apply bs_eqb_eq in E. exfalso. apply Hn. left. exact E.
+    - cbn [app]. f_equal. apply IH. intros H. apply Hn. right. exact H.
+  Qed.
+  Lemma padd_all_fresh ps : forall acc,
+    NoDup (map key ps) -> (forall p, In p ps -> ~ In (key p) (map key acc)) -> padd_all key ps acc = acc ++ ps.
+  Proof.
+    induction ps as [|p ps IH]; intros acc Hn Hd; [symmetry; apply app_nil_r|].
+    unfold EndpointSpec.padd_all. cbn [fold_left]. cbn [map] in Hn. apply NoDup_cons_iff in Hn. destruct Hn as [Hp Hn].
+    rewrite padd_fresh; [|apply Hd; left; reflexivity].
+    change (fold_left (fun a p0 => padd key p0 a) ps (acc ++ [p])) with (padd_all key ps (acc ++ [p])).
+    rewrite IH; [rewrite <- app_assoc; reflexivity|exact Hn|].
+    intros q Hq Hin. rewrite map_app in Hin. apply in_app_or in Hin. destruct Hin as [Hin|Hin].
+    - exact (Hd q (or_intror Hq) Hin).
+    - cbn [map] in Hin. destruct Hin as [E|[]]. apply Hp. rewrite E. apply in_map, Hq.
+  Qed.
+End PaddAppend.
 
 (* every own parameter, and every path-level parameter whose name the operation does not reuse, is effective *)
 Theorem extend_complete common own :
@@ -64,8 +95,23 @@ Qed.
 
 Theorem extend_sound common own p : In p (extend common own) -> In p own \/ In p common.
 Proof.
-  unfold extend. intros H. destruct (padd_all_sound _ _ _ H) as [H'|H']; [left; exact H'|].
-  destruct (padd_all_sound _ _ _ H') as [H''|[]]. right. exact H''.
+  unfold extend. intros H. destruct (padd_all_sound _ _ _ _ H) as [H'|H']; [left; exact H'|].
+  destruct (padd_all_sound _ _ _ _ H') as [H''|[]]. right. exact H''.
+Qed.
+
+Lemma In_prims p l : In p (prims l) <-> In (EPrim p) l.
+Proof.
+  unfold prims. rewrite in_flat_map. split.
+  - intros [x [Hx Hp]]. destruct x as [q|n r m]; [destruct Hp as [->|[]]; exact Hx|destruct Hp].
+  - intros H. exists (EPrim p). split; [exact H|left; reflexivity].
+Qed.
+
+Lemma In_bodies unesc r' m l : In (r', m) (bodies unesc l) <-> exists n r, In (EBody n r m) l /\ r' = unesc r.
+Proof.
+  unfold bodies. rewrite in_flat_map. split.
+  - intros [x [Hx Hp]]. destruct x as [q|n r m0]; [destruct Hp|]. destruct Hp as [E|[]]. injection E as <- <-.
+    exists n, r. split; [exact Hx|reflexivity].
+  - intros [n [r [H ->]]]. exists (EBody n r m). split; [exact H|left; reflexivity].
 Qed.
 
 Section EndpointProps.
@@ -75,20 +121,31 @@ Section EndpointProps.
   Variable native : bs -> option (string * N).
   Notation proj := (endpoint_proj safe unesc map_type native).
   Notation pfield := (pfield unesc map_type native).
+  Notation body_entries := (body_entries safe).
+  Notation all_params := (all_params safe).
 
-  (* import_complete_endpoints: an effective parameter shows up in the list of its location, with the kind of its
-     type and optional exactly when not required (never, for a path parameter); the body parameter is there *)
+  Lemma body_entries_spec e x :
+    In x (body_entries e) ->
+    exists b mt n, e_body e = Some b /\ In mt (e_consumes e) /\ x = EBody n (safe b) mt.
+  Proof.
+    unfold EndpointSpec.body_entries. destruct (e_body e) as [b|]; [|intros []]. intros H.
+    apply in_map_iff in H. destruct H as [mt [<- Hmt]]. exists b, mt. eexists. repeat split. exact Hmt.
+  Qed.
+
+  (* import_complete_endpoints: an effective parameter whose name no body parameter takes shows up in the list of
+     its location, with the kind of its type and optional exactly when not required (never, for a path parameter) *)
   Theorem import_complete_endpoints e p :
     NoDup (map q_name (e_common e)) -> NoDup (map q_name (e_own e)) ->
     (In p (e_own e) \/ (In p (e_common e) /\ ~ In (q_name p) (map q_name (e_own e)))) ->
+    ~ In (q_name p) (map ekey (body_entries e)) ->
     (q_in p = "query"%string -> In (pfield (negb (q_required p)) p) (ep_query (snd (proj e))))
     /\ (q_in p = "path"%string -> In (pfield false p) (ep_url (snd (proj e))))
-    /\ (q_in p = "header"%string -> In (pfield (negb (q_required p)) p) (ep_header (snd (proj e))))
-    /\ (forall b, e_body e = Some b -> ep_body (snd (proj e)) = [unesc (safe b)]).
+    /\ (q_in p = "header"%string -> In (pfield (negb (q_required p)) p) (ep_header (snd (proj e)))).
   Proof.
-    intros Hc Ho Hp.
-    assert (Heff: In p (extend (e_common e) (e_own e))).
-    { destruct (extend_complete _ _ Hc Ho) as [H1 H2]. destruct Hp as [Hp|[Hp Hn]]; auto. }
+    intros Hc Ho Hp Hb.
+    assert (Heff: In p (prims (all_params e))).
+    { apply In_prims. unfold EndpointSpec.all_params. apply padd_all_keep; [|exact Hb].
+      apply in_map. destruct (extend_complete _ _ Hc Ho) as [H1 H2]. destruct Hp as [Hp|[Hp Hn]]; auto. }
     unfold endpoint_proj. cbn [snd ep_query ep_url ep_header ep_body].
     repeat split.
     - intros E. apply in_map_iff. exists p. split; [reflexivity|]. apply filter_In. split; [exact Heff|].
@@ -97,7 +154,30 @@ Section EndpointProps.
       unfold in_loc. rewrite E. reflexivity.
     - intros E. apply in_map_iff. exists p. split; [reflexivity|]. apply filter_In. split; [exact Heff|].
       unfold in_loc. rewrite E. reflexivity.
-    - intros b ->. reflexivity.
+  Qed.
+
+  (* every request media type has its body parameter, of the body's type, provided the names buildRequests gives
+     them are distinct *)
+  Theorem import_complete_bodies e b mt :
+    e_body e = Some b -> NoDup (map ekey (body_entries e)) -> In mt (e_consumes e) ->
+    In (unesc (safe b), mt) (ep_body (snd (proj e))).
+  Proof.
+    intros Hb Hn Hmt. unfold endpoint_proj. cbn [snd ep_body]. apply In_bodies.
+    set (multi := Nat.ltb 1 (List.length (e_consumes e))).
+    exists (safe b ++ (if multi then media_name mt else []) ++ request_suffix), (safe b). split; [|reflexivity].
+    unfold EndpointSpec.all_params. apply padd_all_own; [exact Hn|].
+    unfold EndpointSpec.body_entries. rewrite Hb. apply in_map_iff. exists mt. split; [reflexivity|exact Hmt].
+  Qed.
+
+  (* a single media type: the name carries no media part, nothing to be distinct from *)
+  Corollary import_complete_single_body e b mt :
+    e_body e = Some b -> e_consumes e = [mt] -> ep_body (snd (proj e)) <> [] /\ In (unesc (safe b), mt) (ep_body (snd (proj e))).
+  Proof.
+    intros Hb Hc.
+    assert (H: In (unesc (safe b), mt) (ep_body (snd (proj e)))).
+    { apply import_complete_bodies; [exact Hb| |rewrite Hc; left; reflexivity].
+      unfold EndpointSpec.body_entries. rewrite Hb, Hc. cbn [map]. constructor; [intros []|constructor]. }
+    split; [|exact H]. intros E. rewrite E in H. destruct H.
   Qed.
 
   Theorem import_sound_endpoints e k f :
@@ -105,12 +185,62 @@ Section EndpointProps.
     exists p, (In p (e_own e) \/ In p (e_common e)) /\ k = q_name p.
   Proof.
     unfold endpoint_proj. cbn [snd ep_query ep_url ep_header]. intros H.
-    assert (G: forall opt loc, In (k, f) (map (fun p => pfield (opt p) p) (filter (in_loc loc) (extend (e_common e) (e_own e)))) ->
+    assert (G: forall opt loc, In (k, f) (map (fun p => pfield (opt p) p) (filter (in_loc loc) (prims (all_params e)))) ->
                exists p, (In p (e_own e) \/ In p (e_common e)) /\ k = q_name p).
     { intros opt loc Hin. apply in_map_iff in Hin. destruct Hin as [p [E Hp]]. apply filter_In in Hp.
-      destruct Hp as [Hp _]. exists p. split; [apply extend_sound, Hp|]. unfold EndpointSpec.pfield in E. injection E as <- _. reflexivity. }
+      destruct Hp as [Hp _]. exists p. split.
+      - apply In_prims in Hp. unfold EndpointSpec.all_params in Hp.
+        destruct (padd_all_sound _ _ _ _ Hp) as [Hb|Hx].
+        + destruct (body_entries_spec _ _ Hb) as [b [mt [n [_ [_ Ex]]]]]. discriminate Ex.
+        + apply in_map_iff in Hx. destruct Hx as [q [Eq Hq]]. injection Eq as ->. apply extend_sound, Hq.
+      - unfold EndpointSpec.pfield in E. injection E as <- _. reflexivity. }
     apply in_app_or in H. destruct H as [H|H]; [apply (G (fun p => negb (q_required p)) "query"%string H)|].
     apply in_app_or in H. destruct H as [H|H]; [apply (G (fun _ => false) "path"%string H)|apply (G (fun p => negb (q_required p)) "header"%string H)].
+  Qed.
+
+  (* DETERMINISM of the request line: Go ranges over the content map of the request body in any order; the body
+     parameters are written sorted by name, so the text is the same for every order - provided their names are
+     distinct and no other parameter has one of them (body_media_name_collision_refuted otherwise) *)
+  Lemma filter_body_prims l : filter is_body (map EPrim l) = [].
+  Proof. induction l as [|p l IH]; [reflexivity|exact IH]. Qed.
+  Lemma filter_body_entries e : filter is_body (body_entries e) = body_entries e.
+  Proof.
+    unfold EndpointSpec.body_entries. destruct (e_body e) as [b|]; [|reflexivity].
+    generalize (Nat.ltb 1 (List.length (e_consumes e))). intros multi.
+    induction (e_consumes e) as [|mt l IH]; [reflexivity|]. cbn [map filter is_body]. f_equal. exact IH.
+  Qed.
+
+  Theorem body_text_deterministic e e' :
+    e_path e' = e_path e -> e_method e' = e_method e -> e_common e' = e_common e -> e_own e' = e_own e ->
+    e_body e' = e_body e -> Permutation.Permutation (e_consumes e) (e_consumes e') ->
+    NoDup (map ekey (body_entries e)) ->
+    (forall x, In x (body_entries e) -> ~ In (ekey x) (map q_name (extend (e_common e) (e_own e)))) ->
+    body_text_order safe e = body_text_order safe e'.
+  Proof.
+    intros _ _ Hc Ho Hb Hp Hn Hd.
+    assert (Hperm: Permutation.Permutation (body_entries e) (body_entries e')).
+    { unfold EndpointSpec.body_entries. rewrite Hb. destruct (e_body e) as [b|]; [|constructor].
+      rewrite <- (Permutation.Permutation_length Hp). apply Permutation.Permutation_map, Hp. }
+    assert (Hkeys: forall l, map ekey (map EPrim l) = map q_name l).
+    { intros l. rewrite map_map. reflexivity. }
+    unfold body_text_order, EndpointSpec.all_params. rewrite Hc, Ho.
+    rewrite (padd_all_fresh ekey (body_entries e)); [|exact Hn|intros x Hx; rewrite Hkeys; exact (Hd x Hx)].
+    rewrite (padd_all_fresh ekey (body_entries e')).
+    - rewrite !filter_app, filter_body_prims, !filter_body_entries. cbn [app].
+      apply sort_perm_unique; [exact Hperm|exact Hn].
+    - eapply Permutation.Permutation_NoDup; [apply Permutation.Permutation_map, Hperm|exact Hn].
+    - intros x Hx. rewrite Hkeys. apply (Hd x). eapply Permutation.Permutation_in; [apply Permutation.Permutation_sym, Hperm|exact Hx].
+  Qed.
+
+  (* every body parameter is the operation's body in one of its media types *)
+  Theorem import_sound_bodies e r m :
+    In (r, m) (ep_body (snd (proj e))) -> exists b, e_body e = Some b /\ r = unesc (safe b) /\ In m (e_consumes e).
+  Proof.
+    unfold endpoint_proj. cbn [snd ep_body]. intros H. apply In_bodies in H. destruct H as [n [r0 [H ->]]].
+    unfold EndpointSpec.all_params in H. destruct (padd_all_sound _ _ _ _ H) as [Hb|Hx].
+    - destruct (body_entries_spec _ _ Hb) as [b [mt [n' [E1 [E2 Ex]]]]]. injection Ex as -> -> ->.
+      exists b. repeat split; assumption.
+    - apply in_map_iff in Hx. destruct Hx as [q [Eq _]]. discriminate Eq.
   Qed.
 End EndpointProps.
 
@@ -121,3 +251,13 @@ Example extend_by_name_only_refuted :
   let q := mkq (of_string "trace") "query" false "string" "" in
   extend [h] [q] = [q].
 Proof. reflexivity. Qed.
+
+(* ... and the body parameters live in the same name-keyed map under names made from the media type by
+   cleanMediaType + ToCamel, which is not injective: `application/a+b` and `application/a.b` both give
+   ApplicationAB, so one of the two body parameters replaces the other *)
+Example body_media_name_collision_refuted :
+  let e := mke (of_string "/pets") "POST" [] [] (Some (of_string "Pet"))
+               [of_string "application/a+b"; of_string "application/a.b"] in
+  ep_body (snd (endpoint_proj (fun s => s) (fun s => s) (fun _ _ => []) (fun _ => None) e))
+  = [(of_string "Pet", of_string "application/a.b")].
+Proof. vm_compute. reflexivity. Qed.
